@@ -128,6 +128,10 @@ pub fn build_proc_macro() -> Result<PathBuf, Inconclusive> {
         .arg(&target)
         .env("CARGO_NET_OFFLINE", "true")
         .env_remove("RUSTFLAGS")
+        .env_remove("CARGO_ENCODED_RUSTFLAGS")
+        .env_remove("CARGO_BUILD_RUSTFLAGS")
+        // not from inside harness/, whose .cargo/config.toml turns the verification guard on
+        .current_dir(VERIF)
         .output()
         .map_err(|e| Inconclusive(format!("cannot run cargo: {e}")))?;
     if !out.status.success() {
